@@ -13,7 +13,7 @@ from ..src import AnalysisError
 from ..vg import (App, BoolT, Cmp, Const, Evaluator, Frame, Ite, Obj, Tup, is_num, num_equal, same, show, sym,
                   walk_terms)
 from .c01 import _find_apps
-from .c02 import KERNEL, _expected_args, _grid_args, subpixel_skeleton
+from .c02 import KERNEL, _expected_args, _grid_args, sizes_equivalent, subpixel_skeleton
 from .common import evaluator, method_or_fail
 
 EXPLANATION = (
@@ -56,7 +56,10 @@ def r1(ctx):
             ctx.bad(construct, 'kernel-arity', f'kernel called with {len(a)} arguments, expected {len(want) + 2}', f.loc())
             continue
         bad = None
+        size_ok = sizes_equivalent(cname, list(a[6:6 + len(size)]), size)
         for nm, g, w in zip(names, a, want):
+            if size_ok and nm.startswith('size'):
+                continue
             if not (is_num(g) and num_equal(g, w)):
                 bad = (nm, g, w)
                 break
@@ -68,8 +71,8 @@ def r1(ctx):
             continue
         calls = _find_apps(t.fields['data'], f'call:{KERNEL[cname]}_overlap_grid')
         if not same(t.fields['data'], calls[0]):
-            ctx.bad(construct, 'post-processed', 'the exact overlap fractions are changed after the kernel returned them: '
-                    + show(t.fields['data'], 200), f.loc())
+            ctx.bad(construct, 'post-processed', f'the mask data is not the array returned by {KERNEL[cname]}_overlap_grid for these '
+                    'arguments (changed afterwards, or taken from another call on some path): ' + show(t.fields['data'], 240), f.loc())
             continue
         bb = ev.call(method_or_fail(ctx, ci, 'bounding_box'), [s], {})
         if not same(box, bb):
@@ -496,8 +499,8 @@ def r5(ctx):
             lab = None
             for (px, py), name in corners.items():
                 # (u, v) must be M.(px, py) with |M p|^2 = L(p): check the norm identity and linearity via the corner
-                if sp.simplify(sp.expand_trig(u ** 2 + v ** 2 - L.subs({X: px, Y: py}))) == 0 and \
-                        _depends_only_on(u, v, px, py, (xmin, ymin, xmax, ymax)):
+                if _depends_only_on(u, v, px, py, (xmin, ymin, xmax, ymax)) and {px, py} <= (u.free_symbols | v.free_symbols) \
+                        and _zero(u ** 2 + v ** 2 - L.subs({X: px, Y: py})):
                     lab = name
             if lab is None:
                 probs.append(f'triangle vertex ({show(u, 80)}, {show(v, 80)}) is not a pixel corner mapped by the map that takes '
@@ -525,6 +528,14 @@ def r5(ctx):
     else:
         ctx.ok(construct, 'corners mapped by the ellipse->unit-circle map of the membership test, two triangles along a '
                'diagonal, times rx*ry = 1/det')
+
+
+def _zero(e):
+    e = sp.expand(e)
+    if e == 0:
+        return True
+    e = sp.expand(e.rewrite(sp.cos).subs({}))
+    return sp.simplify(sp.trigsimp(e)) == 0
 
 
 def _depends_only_on(u, v, px, py, allsyms):
